@@ -15,3 +15,13 @@ for k in range(32):
     G('dd.L_cascade.%02d' % k, 'ddiff', 'L_cascade', ['C06'], ins=[('long long', 'in_T')] + [('int', 'in_' + n) for n in FL], fix=fx,
       call='L_cascade(in_T, in_week, in_day, in_hour, in_min, in_sec)', pre='1', post='1', direct=True, must=['L_cascade'], native=False, solvers=['cadical'], timeout=600,
       bounded=dict(bound='totals 0 <= T < 2^27 seconds (about 4.2 years)', why='64-bit multiply/divide identities beyond this range did not discharge on any back end'))
+
+# C14: real-seconds durations through the cascade, seconds only (ddiff -f %rS) and all units
+for k in (16, 31):
+    fx = {('in_%s' % n): str((k >> i) & 1) for i, n in enumerate(FL)}
+    G('dd.precalc.tai.%02d' % k, 'ddiff', 'precalc', ['C14'], ins=[('unsigned', 'in_' + n) for n in FL] + [('int', 'in_soft'), ('int', 'in_corr')], fix=fx,
+      setup='durfmt_t f = {0}; f.has_week = in_week; f.has_day = in_day; f.has_hour = in_hour; f.has_min = in_min; f.has_sec = in_sec; '
+            'struct dt_dtdur_s dur = {(dt_dtdurtyp_t)DT_DURUNK}; dur.durtyp = DT_DURS; dur.tai = 1; dur.soft = in_soft; dur.corr = in_corr;',
+      call='precalc(f, dur)', ret='struct precalc_s', solvers=['cadical'], timeout=600, split='in_soft > -(1 << 27) && in_soft < (1 << 27)',
+      bounded=dict(bound='|UTC difference| < 2^27 seconds (harness-level restriction)', why='64-bit division chains beyond this range did not discharge'),
+      sweep={'in_soft': '(int)(RND % (1U << 31)) - (1 << 30)', 'in_corr': '(int)(RND % 60) - 30'})
